@@ -34,6 +34,7 @@ def innermost(heads):
 class LimbBody:
     def __init__(self, fb, name, params):
         self.fb = fb
+        _FB[0] = fb
         self.b = fb.bodies.get(name)
         self.params = params
         if self.b is None:
@@ -218,6 +219,11 @@ def _lin_rec(o, env):
     k = o[0]
     if k == "const":
         return lin(o, env)
+    if k == "named":
+        v = _named_const(o[1])
+        if v is None:
+            raise NotLinear("named constant %s" % o[1])
+        return Lin(const=v)
     if k == "cast":
         x = _lin_rec(o[3], env)
         lo, hi = interval(x, env)
@@ -258,6 +264,16 @@ def _lin_rec(o, env):
                 env.ranges[atom] = (min(cands), max(cands))
                 return Lin({atom: c1 * c2})
             raise NotLinear("product of two non-atomic expressions")
+        if op in ("Shr", "BitAnd"):
+            l, r2 = _lin_rec(o[2], env), _lin_rec(o[3], env)
+            if op == "BitAnd" and l.is_const() and not r2.is_const():
+                l, r2 = r2, l
+            if r2.is_const() and op == "Shr" and r2.const >= 0:
+                return _lin_rec(("bin", "Div", o[2], ("const", "u64", 1 << r2.const)), env)
+            if r2.is_const() and op == "BitAnd" and r2.const > 0 and (r2.const & (r2.const + 1)) == 0:
+                src = o[2] if _lin_rec(o[3], env).is_const() else o[3]
+                return _lin_rec(("bin", "Rem", src, ("const", "u64", r2.const + 1)), env)
+            raise NotLinear("bit operation %s" % op)
         if op in ("Div", "Rem"):
             l, r2 = _lin_rec(o[2], env), _lin_rec(o[3], env)
             if not r2.is_const() or r2.const <= 0:
@@ -278,6 +294,26 @@ def _lin_rec(o, env):
     if k == "field" and o[1] == "0" and o[2][0] == "bin":
         return _lin_rec(o[2], env)
     raise NotLinear("expression %s" % show(o)[:80])
+
+
+_FB = [None]
+
+
+def _named_const(path):
+    """integer value of a named constant (const BASE: u64 = 1 << 32), evaluated from its MIR"""
+    fb = _FB[0]
+    if fb is None:
+        return None
+    cb = fb.by_path.get(path)
+    if cb is None:
+        return None
+    try:
+        o = Origins(cb, fb)
+        last = max(i for i, blk in enumerate(cb.blocks) if blk["term"]["k"] == "return")
+        v = _lin_rec(o.of_local(0, last, "t"), Env(lambda x: None, lambda a: None))
+        return v.const if v.is_const() else None
+    except Exception:
+        return None
 
 
 def _add_pred(env, cond, truth):
